@@ -16,7 +16,7 @@ from harness.drivers.c01 import shape
 from pysmt.smtlib.printers import to_smtlib
 from pysmt.smtlib.script import smtlibscript_from_formula
 
-ODD_NAMES = ["a b", "1x", ".def_0", ".def_1", "x.y", "été", "p#q", "(x)", 'q"t', "x;y", "Int", "bv5", "_", "as",
+ODD_NAMES = ["mem[0]", "a`b", "m[i][j]", "x^y", "a b", "1x", ".def_0", ".def_1", "x.y", "été", "p#q", "(x)", 'q"t', "x;y", "Int", "bv5", "_", "as",
              "Array", "a'b", "x y z", "@v", "~", "-1", "1.5", "#b1", "and", "+"]
 # names SMT-LIB itself cannot declare (reserved words, predefined theory symbols, literal spellings) are excluded
 # by the property; of the list above "and", "+", "-1", "1.5", "#b1", "Int", "Array", "_", "as" are such names
